@@ -364,6 +364,12 @@ func extractPaddingFromData(data []byte, pubKeySize, sigKeySize int) []byte {
 	if paddingSize <= 0 {
 		return nil
 	}
+	// Keys wider than their inline field (P521, RSA signing keys) leave no well-defined padding
+	// layout; the caller rejects them right after. Computing the two padding regions for them
+	// would slice out of range (e.g. RSA-2048 + X25519: 96 bytes of padding, 224-byte region).
+	if pubKeySize > KEYS_AND_CERT_PUBKEY_SIZE || sigKeySize > KEYS_AND_CERT_SPK_SIZE {
+		return nil
+	}
 	padding := make([]byte, paddingSize)
 	pubPaddingSize := KEYS_AND_CERT_PUBKEY_SIZE - pubKeySize
 	sigPaddingSize := KEYS_AND_CERT_SPK_SIZE - sigKeySize
